@@ -144,18 +144,19 @@ R6 = {
  "C02": "Also: opcode tables kept in package-level arrays or maps are read like map literals.",
  "C03": "Also: a loop condition is optimised before its body; the if arm invalidates what either branch assigns on every path; the key printer appends no suffix to a key it produced itself.",
  "C04": "Also: a run-time value handed to SetMaxSteps is established positive; the snapshot copier is held to the memo-before-elements clause (C04-R14).",
- "C05": "Also: the method handed to Router.Match derives from no header or query value.",
+ "C05": "Also: the method handed to Router.Match derives from no header or query value; HTTP routes are registered in one pass.",
  "C06": "Also: the bytecode registered with a declaration is looked up under that declaration's own key.",
  "C11": "Also: the time-base advance goes through no integer division by the rate.",
  "C07": "Also: the validated object is the one the defaults were filled into; the query text is percent-decoded after it is cut; type-structure walkers in closures and in cmd/glyph are held to the sibling rule.",
  "C08": "Also: builtins and index assignment write no object in place without a test against the module-level environment.",
  "C09": "Also: the snapshot copier hands a container back uncopied only when it is nil and enters it in its memo before visiting its elements.",
  "C10": "Also: single-result type assertions in pkg/parser are established; run-time step bounds are established positive.",
+ "C12": "Also: a constant index into a slice lies behind a test of its length; no write into a map a helper may have answered with nil.",
  "C14": "Also: success is reported only over the err == nil edge of Commit; savepoint names are not constants.",
  "C15": "Also: the specialisation cache is invalidated inside the exclusive hold that bumps the invalidation count; every name-keyed table that holds bytecode is written by the invalidators; C03-R13/R14 under C15-R9.",
  "C16": "Also: nothing that can block executes while Room.mu is held.",
- "C18": "Also: both transformer predicates answer true only at the start of a line.",
- "C19": "Also: no mutex is held while a request is handed to the current handler; nothing the running version uses is shut down while the reload can still fail.",
+ "C18": "Also: both transformer predicates answer true only at the start of a line; the per-line trim takes the carriage return.",
+ "C19": "Also: no mutex is held while a request is handed to the current handler; nothing the running version uses is shut down while the reload can still fail; detected changes are used where they are consumed.",
  "C20": "Also: ticker intervals are positive constants or established positive.",
 }
 for _k,_v in R6.items():
